@@ -705,4 +705,106 @@ theorem xrun?_reach {max timeout prog} {s t : State} {ls : List Label} (h : Reac
     · rename_i u hu; exact ih (h.code (xstep?_sound hu)) hr
     · cases hr
 
+/-! ### progress inside stop() -/
+
+/-- the owner is inside stop(): flag cleared … final clear() pending -/
+def inStop (o : Owner) : Prop :=
+  (∃ todo, o = .stopNotify todo) ∨ (∃ rem todo, o = .join rem todo) ∨ (∃ todo, o = .clearQ todo)
+
+structure PInv (s : State) : Prop where
+  flag : ((∃ todo, s.owner = .stopNotify todo) ∨ (∃ rem todo, s.owner = .join rem todo)) → s.running = false
+  awake : ∀ rem todo, s.owner = .join rem todo → ∀ wk ∈ s.ws, wk.pc ≠ .parked false
+
+theorem pinv_out {t : State} (h1 : ∀ todo, t.owner ≠ .stopNotify todo) (h2 : ∀ rem todo, t.owner ≠ .join rem todo) : PInv t :=
+  ⟨fun h => by
+     rcases h with ⟨todo, h⟩ | ⟨rem, todo, h⟩
+     · exact absurd h (h1 todo)
+     · exact absurd h (h2 rem todo),
+   fun rem todo h => absurd h (h2 rem todo)⟩
+
+theorem pinv_worker {s t : State} (P : PInv s) {w : Nat} {x : Wk} (ho : t.owner = s.owner) (hr : t.running = s.running)
+    (hws : t.ws = s.ws.set w x) (hx : x.pc ≠ .parked false ∨ s.running = true) : PInv t := by
+  refine ⟨by rw [ho, hr]; exact P.flag, ?_⟩
+  intro rem todo ho' wk hwk
+  rw [ho] at ho'
+  rw [hws] at hwk
+  rcases List.mem_or_eq_of_mem_set hwk with h | h
+  · exact P.awake rem todo ho' wk h
+  · subst h
+    rcases hx with hx | hx
+    · exact hx
+    · have := P.flag (Or.inr ⟨rem, todo, ho'⟩)
+      rw [hx] at this; cases this
+
+theorem wake_not_asleep (w : Wk) : (wakeAll w).pc ≠ .parked false := by
+  cases w with | mk pc last => cases pc <;> (intro h; cases h)
+
+theorem pinv_step {s t : State} (P : PInv s) (h : Step s t) : PInv t := by
+  cases h with
+  | start tk todo ho => exact pinv_out (fun _ h => by cases h) (fun _ _ h => by cases h)
+  | spawnYes todo ho hok => exact pinv_out (fun _ h => by cases h) (fun _ _ h => by cases h)
+  | spawnNo todo ho hok => exact pinv_out (fun _ h => by cases h) (fun _ _ h => by cases h)
+  | notifyHit todo w wk ho hw hp => exact pinv_out (fun _ h => by cases h) (fun _ _ h => by cases h)
+  | notifyMiss todo ho hn => exact pinv_out (fun _ h => by cases h) (fun _ _ h => by cases h)
+  | clear todo ho => exact pinv_out (fun _ h => by cases h) (fun _ _ h => by cases h)
+  | stop todo ho => exact ⟨fun _ => rfl, fun _ _ h => by cases h⟩
+  | stopNotify todo ho =>
+    refine ⟨fun _ => P.flag (Or.inl ⟨todo, ho⟩), ?_⟩
+    intro rem todo' _ wk hwk
+    have hwk : wk ∈ s.ws.map wakeAll := hwk
+    obtain ⟨w', _, rfl⟩ := List.mem_map.1 hwk
+    exact wake_not_asleep w'
+  | joinOne w rem todo ho hf =>
+    exact ⟨fun _ => P.flag (Or.inr ⟨_, _, ho⟩), fun _ _ _ => P.awake _ _ ho⟩
+  | joinDone todo ho => exact pinv_out (fun _ h => by cases h) (fun _ _ h => by cases h)
+  | stopClear todo ho => exact pinv_out (fun _ h => by cases h) (fun _ _ h => by cases h)
+  | updNoop todo ho ht => exact pinv_out (fun _ h => by cases h) (fun _ _ h => by cases h)
+  | updBegin todo T ho ht => exact pinv_out (fun _ h => by cases h) (fun _ _ h => by cases h)
+  | updNotify todo ho => exact pinv_out (fun _ h => by cases h) (fun _ _ h => by cases h)
+  | reapYes i rem todo ho hf => exact pinv_out (fun _ h => by cases h) (fun _ _ h => by cases h)
+  | reapNo i rem todo ho hf => exact pinv_out (fun _ h => by cases h) (fun _ _ h => by cases h)
+  | reapDone todo ho => exact pinv_out (fun _ h => by cases h) (fun _ _ h => by cases h)
+  | tick d todo ho => exact pinv_out (fun _ h => by cases h) (fun _ _ h => by cases h)
+  | workerExit w wk hw ha hr => exact pinv_worker P rfl rfl rfl (Or.inl nofun)
+  | workerTake w wk tk q hw ha hr hq => exact pinv_worker P rfl rfl rfl (Or.inl nofun)
+  | workerExpire w wk hw ha hr hq he => exact pinv_worker P rfl rfl rfl (Or.inl nofun)
+  | workerPark w wk hw ha hr hq he => exact pinv_worker P rfl rfl rfl (Or.inr hr)
+  | workerRunEnd w wk tk hw hp => exact pinv_worker P rfl rfl rfl (Or.inl nofun)
+  | workerDelete w wk tk hw hp => exact pinv_worker P rfl rfl rfl (Or.inl nofun)
+  | workerFinish w wk hw hp => exact pinv_worker P rfl rfl rfl (Or.inl nofun)
+
+theorem pinv_sstep {s t : State} (P : PInv s) (h : SStep s t) : PInv t := by
+  cases h with
+  | code hs => exact pinv_step P hs
+  | spurious w wk hw hp => exact pinv_worker P rfl rfl rfl (Or.inl nofun)
+  | envTick d => exact ⟨P.flag, P.awake⟩
+
+theorem reach_pinv {max timeout prog s} (h : Reach max timeout prog s) : PInv s := by
+  induction h with
+  | init => exact pinv_out (fun _ h => by cases h) (fun _ _ h => by cases h)
+  | step _ hs ih => exact pinv_sstep ih hs
+
+theorem stop_progress {s : State} (I : Inv s) (P : PInv s) (h : inStop s.owner) : ∃ t, Step s t := by
+  rcases h with ⟨todo, ho⟩ | ⟨rem, todo, ho⟩ | ⟨todo, ho⟩
+  · exact ⟨_, Step.stopNotify s todo ho⟩
+  · cases rem with
+    | nil => exact ⟨_, Step.joinDone s todo ho⟩
+    | cons w rem =>
+      have hin : w ∈ s.pool := (I.joining _ _ ho).2 w List.mem_cons_self
+      have hlt : w < s.ws.length := I.valid w hin
+      have hw : s.ws[w]? = some s.ws[w] := List.getElem?_eq_getElem hlt
+      have hrun : s.running = false := P.flag (Or.inr ⟨_, _, ho⟩)
+      have hna := P.awake _ _ ho s.ws[w] (List.getElem_mem hlt)
+      cases hp : s.ws[w].pc with
+      | check => exact ⟨_, Step.workerExit s w _ hw (by rw [hp]; rfl) hrun⟩
+      | parked n =>
+        cases n with
+        | true => exact ⟨_, Step.workerExit s w _ hw (by rw [hp]; rfl) hrun⟩
+        | false => exact absurd hp hna
+      | running tk => exact ⟨_, Step.workerRunEnd s w _ tk hw hp⟩
+      | ran tk => exact ⟨_, Step.workerDelete s w _ tk hw hp⟩
+      | exited => exact ⟨_, Step.workerFinish s w _ hw hp⟩
+      | finished => exact ⟨_, Step.joinOne s w rem todo ho (isFin_iff.2 ⟨_, hw, hp⟩)⟩
+  · exact ⟨_, Step.stopClear s todo ho⟩
+
 end TPoolX
